@@ -924,12 +924,150 @@ func plainBudget(v ssa.Value, overhead int64) (bool, string) {
 			}
 		}
 		return true, ""
+	case *ssa.Parameter:
+		// the size is handed in: an unexported helper that is only ever called, and at every call
+		// site is given a budget that satisfies the rule
+		fn := x.Parent()
+		if fn == nil || Cur == nil || fn.Parent() != nil || token.IsExported(fn.Name()) {
+			break
+		}
+		idx := -1
+		for i, q := range fn.Params {
+			if q == x {
+				idx = i
+			}
+		}
+		refs := Cur.RefsTo(fn)
+		if idx < 0 || len(refs) == 0 {
+			break
+		}
+		for _, ref := range refs {
+			ci, isCall := ref.Instr.(*ssa.Call)
+			if !isCall || !ref.IsCall || idx >= len(ci.Call.Args) || ref.Caller == fn {
+				return false, "the marshal helper is used as a value: its size argument cannot be followed"
+			}
+			if ok, why := plainBudget(ci.Call.Args[idx], overhead); !ok {
+				return false, why + " (at the call in " + fnShort(ref.Caller) + ")"
+			}
+		}
+		return true, ""
 	default:
 		if isMaxPacketSizeLoad(v) {
 			return false, "the plain budget is MaxPacketSize on every path: the SRTP overhead is not subtracted when a context is set"
 		}
 	}
 	return false, "the plain budget is not derived from MaxPacketSize"
+}
+
+// budgetLin: a value of the form base + offset, where base is len(x) ("len", of = x) or a load of
+// MaxPacketSize ("mps"), and the offset may differ with (s) and without (p) an SRTP context.
+type budgetLin struct {
+	base string
+	of   ssa.Value
+	s, p int64
+}
+
+func budgetLinear(v ssa.Value) (budgetLin, bool) {
+	v = stripConv(v)
+	if isMaxPacketSizeLoad(v) {
+		return budgetLin{base: "mps"}, true
+	}
+	switch x := v.(type) {
+	case *ssa.Call:
+		if bi, ok := x.Call.Value.(*ssa.Builtin); ok && bi.Name() == "len" && len(x.Call.Args) == 1 {
+			return budgetLin{base: "len", of: x.Call.Args[0]}, true
+		}
+	case *ssa.BinOp:
+		if x.Op != token.ADD && x.Op != token.SUB {
+			return budgetLin{}, false
+		}
+		a, b := x.X, x.Y
+		la, oka := budgetLinear(a)
+		if !oka && x.Op == token.ADD {
+			a, b = b, a
+			la, oka = budgetLinear(a)
+		}
+		if !oka {
+			return budgetLin{}, false
+		}
+		ts, tp, okt := budgetTerm(b)
+		if !okt {
+			return budgetLin{}, false
+		}
+		if x.Op == token.SUB {
+			ts, tp = -ts, -tp
+		}
+		la.s += ts
+		la.p += tp
+		return la, true
+	case *ssa.Phi:
+		var out budgetLin
+		haveS, haveP := false, false
+		for i, e := range x.Edges {
+			le, ok := budgetLinear(e)
+			if !ok || (out.base != "" && out.base != le.base) {
+				return budgetLin{}, false
+			}
+			out.base, out.of = le.base, le.of
+			if edgeIsSecure(x.Block().Preds[i], x.Block()) {
+				out.s, haveS = le.s, true
+			} else {
+				out.p, haveP = le.p, true
+			}
+		}
+		if !haveS {
+			out.s = out.p
+		}
+		if !haveP {
+			out.p = out.s
+		}
+		return out, true
+	}
+	return budgetLin{}, false
+}
+
+// budgetTerm: an integer that is a constant, possibly a different one with and without an SRTP context.
+func budgetTerm(v ssa.Value) (s, p int64, ok bool) {
+	v = stripConv(v)
+	switch x := v.(type) {
+	case *ssa.Const:
+		if x.Value == nil {
+			return 0, 0, false
+		}
+		k, okk := constant.Int64Val(constant.ToInt(x.Value))
+		return k, k, okk
+	case *ssa.Phi:
+		haveS, haveP := false, false
+		for i, e := range x.Edges {
+			es, ep, oke := budgetTerm(e)
+			if !oke {
+				return 0, 0, false
+			}
+			if edgeIsSecure(x.Block().Preds[i], x.Block()) {
+				s, haveS = es, true
+			} else {
+				p, haveP = ep, true
+			}
+		}
+		if !haveS {
+			s = p
+		}
+		if !haveP {
+			p = s
+		}
+		return s, p, true
+	}
+	return 0, 0, false
+}
+
+// edgeIsSecure: the edge pred -> succ is taken only with an SRTP context set.
+func edgeIsSecure(pred, succ *ssa.BasicBlock) bool {
+	for _, vv := range edgeConds(pred, succ, "srtpOutCtx") {
+		if vv {
+			return true
+		}
+	}
+	return false
 }
 
 func c18SinkBound(c *Ctx) {
@@ -1046,15 +1184,15 @@ func c18SinkBound(c *Ctx) {
 				if !ok || bo.Op != token.GTR {
 					continue
 				}
-				lc, ok := bo.X.(*ssa.Call)
-				if !ok {
-					continue
-				}
-				if bi, ok := lc.Call.Value.(*ssa.Builtin); !ok || bi.Name() != "len" {
+				// len(marshalled) [+ a] > MaxPacketSize [- b], a and b possibly depending on whether an SRTP
+				// context is set: what is subtracted from the limit, with and without a context
+				lx, okx := budgetLinear(bo.X)
+				ly, oky := budgetLinear(bo.Y)
+				if !okx || !oky || lx.base != "len" || ly.base != "mps" {
 					continue
 				}
 				fromMarshal := false
-				for _, o := range originsOf(lc.Call.Args[0], nil, "srtpOutCtx", map[ssa.Value]bool{}) {
+				for _, o := range originsOf(lx.of, nil, "srtpOutCtx", map[ssa.Value]bool{}) {
 					if ex, ok := o.val.(*ssa.Extract); ok && ex.Tuple == ssa.Value(marshal) {
 						fromMarshal = true
 					}
@@ -1062,8 +1200,13 @@ func c18SinkBound(c *Ctx) {
 				if !fromMarshal {
 					continue
 				}
-				if ok2, why := plainBudget(bo.Y, srtcpOv); !ok2 {
-					r.Fail("C18/SINK-BOUND", fnShort(fn)+" RTCP length guard budget", p.Pos(iff.Pos()), why)
+				secure, plain := lx.s-ly.s, lx.p-ly.p
+				switch {
+				case secure < srtcpOv:
+					r.Fail("C18/SINK-BOUND", fnShort(fn)+" RTCP length guard budget", p.Pos(iff.Pos()), fmt.Sprintf("with an SRTP context set the plain budget is not MaxPacketSize - %d", srtcpOv))
+					continue
+				case plain < 0:
+					r.Fail("C18/SINK-BOUND", fnShort(fn)+" RTCP length guard budget", p.Pos(iff.Pos()), "without SRTP the plain budget is not MaxPacketSize")
 					continue
 				}
 				guard = iff
@@ -1153,76 +1296,150 @@ func c18Start(c *Ctx) {
 				}
 			}
 		}
-		// also Start2 / other helper: look in callees? the checks live in Start itself today
-		find := func(pred func(bo *ssa.BinOp) bool) *ssa.If {
-			for _, b := range fn.Blocks {
-				if len(b.Instrs) == 0 {
-					continue
-				}
-				iff, ok := b.Instrs[len(b.Instrs)-1].(*ssa.If)
-				if !ok {
-					continue
-				}
-				bo, ok := iff.Cond.(*ssa.BinOp)
-				if ok && pred(bo) {
-					return iff
-				}
-			}
-			return nil
-		}
-		isFieldLoad := func(v ssa.Value, name string) bool {
+		// must-facts at the spawn: (0) MaxPacketSize <= udpMaxPayloadSize, (1) WriteQueueSize is a power
+		// of two. Established by the passing edge of the comparison (in any of its forms), by the
+		// power-of-two test, by storing a constant that satisfies them; helpers of the package that
+		// hold the checks (returning an error or a verdict) are summarised.
+		fieldOfLoad := func(v ssa.Value) string {
+			v = stripConv(v)
 			u, ok := v.(*ssa.UnOp)
-			if !ok {
-				return false
+			if !ok || u.Op != token.MUL {
+				return ""
 			}
 			fa, ok := u.X.(*ssa.FieldAddr)
-			return ok && core.FieldOfAddr(fa) != nil && core.FieldOfAddr(fa).Name() == name
+			if !ok || core.FieldOfAddr(fa) == nil {
+				return ""
+			}
+			return core.FieldOfAddr(fa).Name()
 		}
-		errEdge := func(iff *ssa.If, succ int) bool {
-			tb := iff.Block().Succs[succ]
-			if len(tb.Instrs) == 0 {
+		isPow2Expr := func(v ssa.Value, res func(ssa.Value) ssa.Value) bool {
+			and, ok := stripConv(v).(*ssa.BinOp)
+			if !ok || and.Op != token.AND {
 				return false
 			}
-			ret, ok := tb.Instrs[len(tb.Instrs)-1].(*ssa.Return)
-			return ok && !isNilConst(ret.Results[len(ret.Results)-1])
+			x, y := res(stripConv(and.X)), stripConv(and.Y)
+			sub, ok := y.(*ssa.BinOp)
+			if !ok {
+				// (x-1) & x
+				sub, ok = stripConv(and.X).(*ssa.BinOp)
+				x = res(stripConv(and.Y))
+			}
+			if !ok || sub.Op != token.SUB || !constIs(sub.Y, 1) {
+				return false
+			}
+			return fieldOfLoad(x) == "WriteQueueSize" && fieldOfLoad(res(stripConv(sub.X))) == "WriteQueueSize"
 		}
-		g1 := find(func(bo *ssa.BinOp) bool {
-			return bo.Op == token.GTR && isFieldLoad(bo.X, "MaxPacketSize") && constIs(bo.Y, udpMax)
-		})
-		ok1 := g1 != nil && errEdge(g1, 0)
-		if ok1 && goIn != nil {
-			// every way to the spawn passes the test or a defaulting store of a constant within the limit
-			skip, _, _ := core.PathAvoiding(fn, nil, func(x ssa.Instruction) bool { return x == goIn }, func(x ssa.Instruction) bool {
-				if x == ssa.Instruction(g1) {
-					return true
+		ff := &factFlow{}
+		ff.inline = func(h *ssa.Function) bool { return h.Pkg == fn.Pkg && !token.IsExported(h.Name()) && len(h.Blocks) <= 40 }
+		ff.onEdge = func(cond ssa.Value, pol bool, res func(ssa.Value) ssa.Value) (uint, uint) {
+			bo, ok := cond.(*ssa.BinOp)
+			if !ok {
+				return 0, 0
+			}
+			x, y := res(stripConv(bo.X)), res(stripConv(bo.Y))
+			// MaxPacketSize compared with the limit
+			op := bo.Op
+			if fieldOfLoad(y) == "MaxPacketSize" {
+				x, y = y, x
+				switch op {
+				case token.GTR:
+					op = token.LSS
+				case token.LSS:
+					op = token.GTR
+				case token.GEQ:
+					op = token.LEQ
+				case token.LEQ:
+					op = token.GEQ
 				}
-				if st, ok := x.(*ssa.Store); ok {
-					if fa, ok := st.Addr.(*ssa.FieldAddr); ok && core.FieldOfAddr(fa) != nil && core.FieldOfAddr(fa).Name() == "MaxPacketSize" {
-						if k, ok := st.Val.(*ssa.Const); ok && k.Value != nil {
-							if v, ok := constant.Int64Val(constant.ToInt(k.Value)); ok && v <= udpMax {
-								return true
-							}
+			}
+			if fieldOfLoad(x) == "MaxPacketSize" {
+				if k, isK := y.(*ssa.Const); isK && k.Value != nil {
+					if kv, okv := constant.Int64Val(constant.ToInt(k.Value)); okv {
+						switch {
+						case op == token.GTR && !pol && kv <= udpMax, op == token.LEQ && pol && kv <= udpMax,
+							op == token.GEQ && !pol && kv <= udpMax+1, op == token.LSS && pol && kv <= udpMax+1,
+							op == token.EQL && pol && kv <= udpMax:
+							return 1, 0
 						}
 					}
 				}
-				return false
-			})
-			ok1 = !skip
+			}
+			// size & (size-1) == 0
+			if (bo.Op == token.EQL || bo.Op == token.NEQ) && constIs(bo.Y, 0) && isPow2Expr(bo.X, res) {
+				if (bo.Op == token.EQL) == pol {
+					return 2, 0
+				}
+			}
+			// field == 0 / != 0: remembered, so that a later test of the same thing takes the same edge
+			if (bo.Op == token.EQL || bo.Op == token.NEQ) && constIs(y, 0) {
+				zero := (bo.Op == token.EQL) == pol
+				switch fieldOfLoad(x) {
+				case "WriteQueueSize":
+					if zero {
+						return 8, 4
+					}
+					return 4, 8
+				case "MaxPacketSize":
+					if zero {
+						return 32 | 1, 16 // zero is within the limit too
+					}
+					return 16, 32
+				}
+			}
+			return 0, 0
 		}
-		r.Check(ok1, "C18/START", spec[0]+" refuses MaxPacketSize > udpMaxPayloadSize", p.Pos(fn.Pos()), fmt.Sprintf("`MaxPacketSize > %d` returns an error", udpMax), "the start-time refusal of an over-large MaxPacketSize is gone or no longer returns an error")
-		g2 := find(func(bo *ssa.BinOp) bool {
-			if bo.Op != token.NEQ || !constIs(bo.Y, 0) {
+		ff.deadEdge = func(cur uint, cond ssa.Value, pol bool, res func(ssa.Value) ssa.Value) bool {
+			bo, ok := cond.(*ssa.BinOp)
+			if !ok || (bo.Op != token.EQL && bo.Op != token.NEQ) || !constIs(res(stripConv(bo.Y)), 0) {
 				return false
 			}
-			and, ok := bo.X.(*ssa.BinOp)
-			if !ok || and.Op != token.AND || !isFieldLoad(and.X, "WriteQueueSize") {
-				return false
+			zero := (bo.Op == token.EQL) == pol
+			switch fieldOfLoad(res(stripConv(bo.X))) {
+			case "WriteQueueSize":
+				return zero && cur&4 != 0 || !zero && cur&8 != 0
+			case "MaxPacketSize":
+				return zero && cur&16 != 0 || !zero && cur&32 != 0
 			}
-			sub, ok := and.Y.(*ssa.BinOp)
-			return ok && sub.Op == token.SUB && isFieldLoad(sub.X, "WriteQueueSize") && constIs(sub.Y, 1)
-		})
-		ok2 := g2 != nil && errEdge(g2, 0)
-		r.Check(ok2, "C18/START", spec[0]+" refuses a WriteQueueSize that is not a power of two", p.Pos(fn.Pos()), "`size & (size-1) != 0` returns an error", "the power-of-two test of WriteQueueSize is gone or no longer returns an error")
+			return false
+		}
+		ff.onInstr = func(in ssa.Instruction, res func(ssa.Value) ssa.Value) (uint, uint) {
+			st, ok := in.(*ssa.Store)
+			if !ok {
+				return 0, 0
+			}
+			fa, ok := st.Addr.(*ssa.FieldAddr)
+			if !ok || core.FieldOfAddr(fa) == nil {
+				return 0, 0
+			}
+			var bit uint
+			switch core.FieldOfAddr(fa).Name() {
+			case "MaxPacketSize":
+				bit = 1
+			case "WriteQueueSize":
+				bit = 2
+			default:
+				return 0, 0
+			}
+			known := uint(4 | 8)
+			if bit == 1 {
+				known = 16 | 32
+			}
+			if k, isK := st.Val.(*ssa.Const); isK && k.Value != nil {
+				if v, okv := constant.Int64Val(constant.ToInt(k.Value)); okv {
+					if bit == 1 && v <= udpMax || bit == 2 && v > 0 && v&(v-1) == 0 {
+						return bit, known
+					}
+				}
+			}
+			return 0, bit | known
+		}
+		ok1, ok2 := false, false
+		if goIn != nil {
+			at := ff.run(fn, 0)[goIn]
+			ok1, ok2 = at.holds(1), at.holds(2)
+		}
+		r.Check(ok1, "C18/START", spec[0]+" refuses MaxPacketSize > udpMaxPayloadSize", p.Pos(fn.Pos()), fmt.Sprintf("MaxPacketSize <= %d on every path to the spawn", udpMax), "the start-time refusal of an over-large MaxPacketSize is gone or no longer returns an error")
+		r.Check(ok2, "C18/START", spec[0]+" refuses a WriteQueueSize that is not a power of two", p.Pos(fn.Pos()), "WriteQueueSize is a power of two on every path to the spawn", "the power-of-two test of WriteQueueSize is gone or no longer returns an error")
 	}
 }
 
